@@ -39,6 +39,8 @@ var pinnedNext = []struct {
 	{optSeconds, "TZ=America/Havana 0 0 0 1 1 *", "", "1990-03-30T12:00:00-05:00", "1991-01-01T00:00:00-05:00", "Havana: 1992 returned"},
 	{optSeconds, "TZ=Asia/Beirut 0 0 0 1 1 *", "", "1990-04-29T12:00:00+02:00", "1991-01-01T00:00:00+02:00", "Beirut: 1994 returned"},
 	{optSeconds, "TZ=Africa/Cairo 0 0 0 1 1 *", "", "2014-05-14T12:00:00+02:00", "2015-01-01T00:00:00+02:00", "Cairo: 2016 returned"},
+	// local mean time: the UTC offset has a seconds part, minutes must be truncated on the wall clock
+	{optStandard, "TZ=Africa/Monrovia 00 * ? * ?", "", "1970-01-01T00:00:00Z", "1970-01-01T00:44:30Z", "Monrovia -0:44:30 (start 23:15:30 local): 01:00 local returned instead of 00:00 local"},
 	// beyond the zone tables ZoneBounds reports a boundary that is already past on 31 December of leap years;
 	// a search that walks the zone's periods must not stall there
 	{optStandard, "@annually", "Europe/Berlin", "2096-12-11T14:01:58.999999999+01:00", "2097-01-01T00:00:00+01:00", "extrapolated zone rules, leap-year end"},
